@@ -215,6 +215,14 @@ def tv(t: Term, known: dict[Term, bool]) -> bool | None:
                     return a[1] in b[1]
             except TypeError:
                 return None
+        if op == "le" and not (a[0] == "const" and b[0] == "const"):
+            # order duality (total orders: ints, lengths):  a <= b  is the negation of  b < a
+            if t in known:
+                return known[t]
+            v = tv(("cmp", "lt", b, a), known)
+            return None if v is None else not v
+        if op == "lt" and ("cmp", "le", b, a) in known and t not in known:
+            return not known[("cmp", "le", b, a)]
         if op in ("is", "eq") and (is_const(b, None) or is_const(a, None)):
             other = a if is_const(b, None) else b
             if other[0] in ("tuple", "list", "set", "dict", "fstr", "func", "lambda", "comp", "bin", "new") or (other[0] == "const" and other[1] is not None):
@@ -255,6 +263,8 @@ def atoms_of(t: Term) -> set[Term]:
         return out
     if tag == "cmp" and t[1] in ("isnot", "ne", "notin"):
         return {("cmp", {"isnot": "is", "ne": "eq", "notin": "in"}[t[1]], t[2], t[3])}
+    if tag == "cmp" and t[1] == "le" and not (t[2][0] == "const" and t[3][0] == "const"):
+        return {("cmp", "lt", t[3], t[2])}
     if tag == "bin" and t[1] == "Add":
         return atoms_of(t[2]) | atoms_of(t[3])
     return {t}
